@@ -499,9 +499,14 @@ class InstanceWriteProvider(BaseProvider):
             if multi_ns:
                 multi_ns.append(namespace)
                 instance_name_copy = InstanceName.copy()
-                for ns in multi_ns:
+                # Get the instance stores of all the namespaces first, so that
+                # a referenced namespace that does not exist is detected
+                # before the instance is deleted in any namespace.
+                instance_stores = [
+                    (ns, self.cimrepository.get_instance_store(ns))
+                    for ns in multi_ns]
+                for ns, instance_store in instance_stores:
                     instance_name_copy.namespace = ns
-                    instance_store = self.cimrepository.get_instance_store(ns)
                     # The instance may already have been deleted in one of
                     # the other namespaces (via its path in that namespace)
                     if instance_store.object_exists(instance_name_copy):
